@@ -109,10 +109,12 @@ def instances():
     return B
 
 
-def evaluate(model, builder, aspect):
-    """Returns list of result dicts (one per fork leaf)."""
+def evaluate(model, builder, aspect, unknown=()):
+    """Returns list of result dicts (one per fork leaf).  `unknown`: leaves
+    whose grad_lipschitz is nan (no bound declared)."""
     def once(assume):
         c = Ctx(model, assume)
+        c.h.unknown_lipschitz = set(unknown)
         I = c.I
         D = builder(c)
         x = vec(T, c.X)
